@@ -37,6 +37,9 @@ pub enum Shape {
 #[derive(Clone, Debug, Serialize, Deserialize)]
 pub struct Case {
     pub shape: Shape,
+    /// letter case of an (ASCII) operator word: 0 as configured, 1 upper case, 2 capitalised
+    #[serde(default)]
+    pub wcase: u8,
 }
 
 fn operand_toks(o: &Operand, lang: &str) -> Vec<Tok> {
@@ -49,6 +52,10 @@ fn operand_toks(o: &Operand, lang: &str) -> Vec<Tok> {
 
 /// `a <operator word> b` as a token line in `lang` (None when the language has no word for the operator)
 pub fn opword_line(a: &Operand, op: char, pick: u32, b: &Operand, lang: &str) -> Option<Line> {
+    opword_line_cased(a, op, pick, b, lang, 0)
+}
+
+pub fn opword_line_cased(a: &Operand, op: char, pick: u32, b: &Operand, lang: &str, wcase: u8) -> Option<Line> {
     let words = op_words(lang, op);
     if words.is_empty() {
         return None;
@@ -57,7 +64,10 @@ pub fn opword_line(a: &Operand, op: char, pick: u32, b: &Operand, lang: &str) ->
     for t in operand_toks(a, lang) {
         l.push(t);
     }
-    l.push(Tok::word(&words[monotone_index(pick, words.len())], Class::Keyword));
+    let word = &words[monotone_index(pick, words.len())];
+    // keywords are case-insensitive; only words of ASCII letters are re-cased (I/ı and İ/i do not map one-to-one)
+    let word = if word.is_ascii() { crate::lines::recase(word, match wcase % 3 { 0 => 0, 1 => 1, _ => 3 }, 0) } else { word.clone() };
+    l.push(Tok::word(&word, Class::Keyword));
     for t in operand_toks(b, lang) {
         l.push(t);
     }
@@ -75,7 +85,7 @@ pub fn opword_strategy() -> impl Strategy<Value = (Line, String)> {
 /// the text of the case in `lang` (None when the language has no word for a slot)
 pub fn render(c: &Case, lang: &str) -> Option<String> {
     match &c.shape {
-        Shape::OpWord(a, op, pick, b) => opword_line(a, *op, *pick, b, lang).map(|l| l.render(",", ".")),
+        Shape::OpWord(a, op, pick, b) => opword_line_cased(a, *op, *pick, b, lang, c.wcase).map(|l| l.render(",", ".")),
         Shape::Durations(d) => {
             let mut d2 = d.clone();
             d2.lang = lang.to_string();
@@ -185,6 +195,46 @@ impl Prop for Languages {
                 break;
             }
         }
+        // the same through ONE session object that is switched between the languages (en, other, en): the
+        // language in force decides, not the language the session used before
+        let mut session_checked = false;
+        if acc.ok() {
+            let mut seq: Vec<(String, String)> = vec![("en".to_string(), en_text.clone())];
+            for lang in &langs {
+                if let Some(t) = render(c, lang) {
+                    seq.push((lang.clone(), t));
+                    seq.push(("en".to_string(), en_text.clone()));
+                }
+            }
+            if seq.len() > 1 {
+                let mut session = smartcalc::Session::new();
+                for (lang, text) in &seq {
+                    w.count_eval(2);
+                    let direct = w.eval(&cfg, lang, text);
+                    let via = {
+                        let calc = w.calcs.get(&cfg);
+                        crate::common::eval_session(calc, &mut session, lang, text)
+                    };
+                    match (direct, via) {
+                        (Ok(d), Ok(v)) => {
+                            let same = d.slots.len() == v.slots.len() && d.slots.iter().zip(v.slots.iter()).all(|(x, y)| x.same(y));
+                            if !same {
+                                if chrono::Utc::now().date_naive() != today0 {
+                                    return Verdict::skip("date changed during the case", rendered);
+                                }
+                                acc.fail(format!("[{}] {:?} on a session that was switched between languages gives {:?}, a fresh evaluation gives {:?}", lang, text, v.slots.iter().map(|s| s.brief()).collect::<Vec<_>>(), d.slots.iter().map(|s| s.brief()).collect::<Vec<_>>()));
+                                break;
+                            }
+                        }
+                        (Err(p), _) | (_, Err(p)) => {
+                            acc.fail(format!("panic at {}: {}", p.site, p.message));
+                            break;
+                        }
+                    }
+                }
+                session_checked = true;
+            }
+        }
         let en_ok = en.slots.iter().any(|s| matches!(s, Slot::Ok { .. }));
         let kind: &'static str = match &c.shape {
             Shape::OpWord(..) => "operator-words",
@@ -192,7 +242,7 @@ impl Prop for Languages {
             Shape::Dates(_) => "dates-and-day-keywords",
             Shape::WordFree(_) => "word-free",
         };
-        acc.finish(rendered).nt(en_ok && (translated_word || non_number)).class(kind).class_if(translated_word, "has-translated-word").class_if(en_ok, "evaluates-in-english")
+        acc.finish(rendered).nt(en_ok && (translated_word || non_number)).class(kind).class_if(translated_word, "has-translated-word").class_if(en_ok, "evaluates-in-english").class_if(session_checked, "also-through-one-session-switched-between-languages").class_if(c.wcase % 3 != 0 && matches!(c.shape, Shape::OpWord(..)), "operator-word-recased")
     }
 }
 
@@ -220,11 +270,11 @@ pub fn case_strategy() -> impl Strategy<Value = Case> {
         2 => crate::mixed::any_line().prop_filter("programs without language-dependent words", |g| g.src == "C03" && !g.all_lines().iter().any(|l| l.toks.iter().any(|t| matches!(t.class, Class::DurWord | Class::Month | Class::Keyword)))),
     ];
     prop_oneof![
-        3 => (operand_strategy(), prop::sample::select(vec!['*', '+', '-']), any::<u32>(), operand_strategy()).prop_map(|(a, op, p, b)| Case { shape: Shape::OpWord(a, op, p, b) }),
-        3 => crate::c10::case_strategy().prop_map(|d| Case { shape: Shape::Durations(d) }),
+        3 => (operand_strategy(), prop::sample::select(vec!['*', '+', '-']), any::<u32>(), operand_strategy(), prop_oneof![2 => Just(0u8), 1 => 1u8..3]).prop_map(|(a, op, p, b, wcase)| Case { shape: Shape::OpWord(a, op, p, b), wcase }),
+        3 => crate::c10::case_strategy().prop_map(|d| Case { shape: Shape::Durations(d), wcase: 0 }),
         // date shapes valid in every language (no month-first form)
-        4 => crate::c09::shape_strategy("tr").prop_map(|shape| Case { shape: Shape::Dates(crate::c09::Case { lang: "tr".into(), shape, tz: None, seps: 0 }) }),
-        4 => word_free.prop_map(|g| Case { shape: Shape::WordFree(g) }),
+        4 => crate::c09::shape_strategy("tr").prop_map(|shape| Case { shape: Shape::Dates(crate::c09::Case { lang: "tr".into(), shape, tz: None, seps: 0 }), wcase: 0 }),
+        4 => word_free.prop_map(|g| Case { shape: Shape::WordFree(g), wcase: 0 }),
     ]
 }
 
@@ -234,29 +284,29 @@ pub fn table() -> Vec<Case> {
     for op in ['*', '+', '-'] {
         for k in 0..8u32 {
             let pick = (((k as u64) << 32) / 8 + 1) as u32;
-            out.push(Case { shape: Shape::OpWord(Operand::Num(NumLit::new(12.0)), op, pick, Operand::Num(NumLit::new(5.0))) });
-            out.push(Case { shape: Shape::OpWord(Operand::Money(NumLit::new(12.0), "usd".into()), op, pick, if op == '*' { Operand::Num(NumLit::new(5.0)) } else { Operand::Money(NumLit::new(5.0), "eur".into()) }) });
+            out.push(Case { shape: Shape::OpWord(Operand::Num(NumLit::new(12.0)), op, pick, Operand::Num(NumLit::new(5.0))), wcase: 0 });
+            out.push(Case { shape: Shape::OpWord(Operand::Money(NumLit::new(12.0), "usd".into()), op, pick, if op == '*' { Operand::Num(NumLit::new(5.0)) } else { Operand::Money(NumLit::new(5.0), "eur".into()) }), wcase: 0 });
         }
     }
     for m in 1..=12u32 {
         for k in 0..4u32 {
             let pick = (((k as u64) << 32) / 4 + 1) as u32;
             for cp in 0..3u8 {
-                out.push(Case { shape: Shape::Dates(crate::c09::Case { lang: "tr".into(), shape: crate::c09::Shape::Literal(crate::c09::DateLit { y: Some(2020), m, d: 12, spell: crate::c09::Spell::DMonY(pick, cp, 0) }), tz: None, seps: 0 }) });
-                out.push(Case { shape: Shape::Dates(crate::c09::Case { lang: "tr".into(), shape: crate::c09::Shape::Literal(crate::c09::DateLit { y: None, m, d: 12, spell: crate::c09::Spell::DMon(pick, cp, 0) }), tz: None, seps: 0 }) });
+                out.push(Case { shape: Shape::Dates(crate::c09::Case { lang: "tr".into(), shape: crate::c09::Shape::Literal(crate::c09::DateLit { y: Some(2020), m, d: 12, spell: crate::c09::Spell::DMonY(pick, cp, 0) }), tz: None, seps: 0 }), wcase: 0 });
+                out.push(Case { shape: Shape::Dates(crate::c09::Case { lang: "tr".into(), shape: crate::c09::Shape::Literal(crate::c09::DateLit { y: None, m, d: 12, spell: crate::c09::Spell::DMon(pick, cp, 0) }), tz: None, seps: 0 }), wcase: 0 });
             }
         }
     }
     for u in 0..7u8 {
         for sp in 0..2u8 {
             for n in [0u32, 1, 2, 30, 365] {
-                out.push(Case { shape: Shape::Durations(crate::c10::Case { lang: "tr".into(), groups: vec![vec![crate::c10::Part { count: n, unit: u, spelling: sp, group: false }]], plus: vec![], conv: None }) });
+                out.push(Case { shape: Shape::Durations(crate::c10::Case { lang: "tr".into(), groups: vec![vec![crate::c10::Part { count: n, unit: u, spelling: sp, group: false }]], plus: vec![], conv: None }), wcase: 0 });
             }
         }
     }
     for w in 0..3u8 {
-        out.push(Case { shape: Shape::Dates(crate::c09::Case { lang: "tr".into(), shape: crate::c09::Shape::Const(w, None), tz: None, seps: 0 }) });
-        out.push(Case { shape: Shape::Dates(crate::c09::Case { lang: "tr".into(), shape: crate::c09::Shape::Const(w, Some((true, 3))), tz: None, seps: 0 }) });
+        out.push(Case { shape: Shape::Dates(crate::c09::Case { lang: "tr".into(), shape: crate::c09::Shape::Const(w, None), tz: None, seps: 0 }), wcase: 0 });
+        out.push(Case { shape: Shape::Dates(crate::c09::Case { lang: "tr".into(), shape: crate::c09::Shape::Const(w, Some((true, 3))), tz: None, seps: 0 }), wcase: 0 });
     }
     out
 }
